@@ -4,6 +4,7 @@
 package shardh
 
 import (
+	"bytes"
 	"context"
 	"encoding/binary"
 	"encoding/hex"
@@ -651,6 +652,67 @@ func (h *H) DropMeasurement(meas string) string {
 	return "ok"
 }
 
+// ---- backup / restore -------------------------------------------------------------------
+
+// BackupRestore backs the shard up (full, or time-bounded export) and restores the archive
+// into a fresh store (restore = what a shard copy to another node does; import = the portable
+// restore path); it then reads the listed series/fields from the restored shard.
+// mode: full | import | export:<lo>:<hi>
+func (h *H) BackupRestore(mode string, series []string, fields []string) string {
+	h.SnapRelease()
+	var buf bytes.Buffer
+	lo, hi := int64(math.MinInt64), int64(math.MaxInt64)
+	var err error
+	if strings.HasPrefix(mode, "export:") {
+		p := strings.Split(mode, ":")
+		lo, _ = strconv.ParseInt(p[1], 10, 64)
+		hi, _ = strconv.ParseInt(p[2], 10, 64)
+		err = h.Store.ExportShard(ShardID, time.Unix(0, lo), time.Unix(0, hi), &buf)
+	} else {
+		err = h.Store.BackupShard(ShardID, time.Time{}, &buf)
+	}
+	if err != nil {
+		return "err:backup:" + strings.ReplaceAll(err.Error(), " ", "_")
+	}
+	ddir := fmt.Sprintf("%s.restore%d", strings.TrimRight(h.rootDir(), "/"), h.crashes)
+	h.crashes++
+	os.RemoveAll(ddir)
+	defer os.RemoveAll(ddir)
+	d, err := New(ddir, h.Index)
+	if err != nil {
+		return "err:dest:" + strings.ReplaceAll(err.Error(), " ", "_")
+	}
+	defer d.Close()
+	if mode == "import" {
+		err = d.Store.ImportShard(ShardID, &buf)
+	} else {
+		err = d.Store.RestoreShard(ShardID, &buf)
+	}
+	if err != nil {
+		return "err:restore:" + strings.ReplaceAll(err.Error(), " ", "_")
+	}
+	d.quiet()
+	var parts []string
+	for _, sr := range series {
+		p := strings.SplitN(sr, "|", 2)
+		for _, f := range fields {
+			// a time-bounded export copies whole blocks: only the requested window is
+			// promised (and compared)
+			rlo, rhi := int64(math.MinInt64+2), int64(math.MaxInt64-1)
+			if strings.HasPrefix(mode, "export:") {
+				rlo, rhi = lo, hi
+			}
+			r := d.Read(p[0], p[1], f, rlo, rhi, true)
+			x := strings.Fields(r)
+			if strings.Contains(r, "CURSOR-DIFFERS") || len(x) < 2 {
+				return "restored-read " + sr + "/" + f + " " + r
+			}
+			parts = append(parts, x[0]+":"+x[1])
+		}
+	}
+	return strings.Join(parts, " ")
+}
+
 // ---- crash images -----------------------------------------------------------------------
 
 func copyTree(src, dst string) error {
@@ -995,6 +1057,8 @@ func (h *H) Step(op string) (out string) {
 		default:
 			return "err"
 		}
+	case "bk":
+		return h.BackupRestore(f[1], strings.Split(f[2], ";"), strings.Split(f[3], ","))
 	case "crash":
 		n := 0
 		if len(f) > 2 {
